@@ -7,6 +7,7 @@ import (
 	"encoding/hex"
 	"fmt"
 	"reflect"
+	"sync"
 	"sync/atomic"
 
 	"github.com/consensys/gnark-crypto/ecc/bls12-381/bandersnatch"
@@ -33,6 +34,7 @@ import (
 	koalabearsis "github.com/consensys/gnark-crypto/field/koalabear/sis"
 	"github.com/consensys/gnark-crypto/field/koalabear/vortex"
 	ghash "github.com/consensys/gnark-crypto/hash"
+	"github.com/consensys/gnark-crypto/utils"
 )
 
 func c18SliceOf[T any](x T, n int) []T {
@@ -42,6 +44,9 @@ func c18SliceOf[T any](x T, n int) []T {
 }
 
 func c18Clone[T any](s []T) []T { return append([]T(nil), s...) }
+
+// one utils.WorkerPool for the whole process (it is meant to be shared by its users)
+var c18WorkerPool = sync.OnceValue(utils.NewWorkerPool)
 
 // c18Par: the shapes of the `C18 par` lines (sizes above the thresholds of the parallel implementations)
 func c18Par(shape int) bool { return shape >= 16 }
